@@ -94,7 +94,8 @@ pub fn emit_step<T: Sc>(out: &mut Out, cid: &str, prop: &str, target: &AnyTarget
     let acc: Vec<f64> = tr.doublings.iter().map(|d| d.4).collect();
     // the acceptance statistic is compared except for the HalfLine target (its autodiff gradient through `mask_fill`
     // differs from the closed-form continuation outside the support, which turns a NaN joint into -inf or back)
-    let with_stat = prop == "C03" || !matches!(target, AnyTarget::HalfLine { .. });
+    // and for the NaN-region targets at step sizes the f64 model can follow (an injected 1e38 overflows f32 only)
+    let with_stat = prop == "C03" || prop == "C04" || (matches!(target, AnyTarget::LogBox | AnyTarget::SqrtGamma { .. }) && tr.eps < 50.0);
     let case = format!(
         "{} {cid} {} {} ; {} ; {} ; {} ; {} ; {} ; {} ; {}",
         if with_stat { "c03" } else { "c03x" },
@@ -244,8 +245,8 @@ where
                 // the library has no tree-depth cap: with a *tiny injected* step size a legitimate transition on a
                 // heavy-tailed or flat target can need 2^25 and more leapfrogs — that is this harness's own stress input,
                 // not a hang of the library; only a transition at an ordinary step size counts
-                if extreme.is_some() && eps_now < 0.05 {
-                    out.count("transition_cut_long_with_injected_small_step");
+                if (extreme.is_some() && eps_now < 0.05) || !target.bounded_periods() {
+                    out.count("transition_cut_long_with_injected_small_step_or_heavy_tails");
                     return;
                 }
                 out.fail(&format!("{id}.{k}"), "C03:transition-hang", "a NUTS transition did not finish within 60 s", (dim * n_steps) as u64,
@@ -446,7 +447,13 @@ where
                     break;
                 }
                 let Some((c2, ev)) = step_wd::<T, B>(c, 60) else {
-                    out.fail(&cid, "C04:transition-hang", "a NUTS transition did not finish within 60 s (step size usable?)", size, format!("{} {} seed {seed}", T::NAME, target.spec::<T>()));
+                    // no depth cap in the library: on a heavy-tailed target (Student-t with nu near 1) a chain far out in the
+                    // tail legitimately needs an astronomical number of leapfrogs — not a hang; elsewhere it is one
+                    if target.bounded_periods() {
+                        out.fail(&cid, "C04:transition-hang", "a NUTS transition did not finish within 60 s (step size usable?)", size, format!("{} {} seed {seed}", T::NAME, target.spec::<T>()));
+                    } else {
+                        out.count("history_cut_long_transition_heavy_tails");
+                    }
                     return;
                 };
                 c = c2;
